@@ -188,9 +188,27 @@ def _positional_library_arguments(tree: ast.Module) -> None:
             n.keywords.remove(kw)
 
 
+class _MapGetitem(ast.NodeTransformer):
+    """map(table.__getitem__, xs)  ->  (table[_m] for _m in xs): the same elements in the same order, in the form the
+    interpreters read"""
+
+    def visit_Call(self, node):
+        self.generic_visit(node)
+        if isinstance(node.func, ast.Name) and node.func.id == "map" and len(node.args) == 2 and not node.keywords \
+                and isinstance(node.args[0], ast.Attribute) and node.args[0].attr == "__getitem__":
+            var = ast.Name(id="_m", ctx=ast.Load())
+            gen = ast.GeneratorExp(elt=ast.Subscript(value=node.args[0].value, slice=var, ctx=ast.Load()),
+                                   generators=[ast.comprehension(target=ast.Name(id="_m", ctx=ast.Store()), iter=node.args[1], ifs=[], is_async=0)])
+            return ast.copy_location(gen, node)
+        return node
+
+
 def desugar(tree: ast.Module) -> tuple[ast.Module, int, int]:
     """-> (tree, matches rewritten, matches left alone)"""
     _positional_library_arguments(tree)
+    if any(isinstance(n, ast.Attribute) and n.attr == "__getitem__" for n in ast.walk(tree)):
+        tree = _MapGetitem().visit(tree)
+        ast.fix_missing_locations(tree)
     if not any(isinstance(n, ast.Match) for n in ast.walk(tree)):
         return tree, 0, 0
     d = MatchDesugar()
